@@ -2,6 +2,8 @@ import OpcuaModel.Model.ChunkMsg
 import OpcuaModel.Model.ChunkLen
 import OpcuaModel.Props.C38
 import OpcuaModel.Model.ChunkRef
+import OpcuaModel.Model.Stack
+import OpcuaModel.Props.C01
 /-
   C07 — secure-channel chunking round-trips every message under every policy
   and mode.
@@ -361,5 +363,85 @@ theorem C07_roundtrip_reference (a : AlgoParams) (ka : KeyAssign)
     cs h hcs (fun _ => [⟨m, false, a, refCrypto ka (symmetric ka hmac y x)⟩]) lim chan tok req hchan hreq ⟨[], rfl⟩
     seq hseq body hb (fun _ => []) rfl hcount hsize
   exact ⟨ws, sq, h1, by rw [h3]⟩
-end Opcua.Props.C07
+/-! ### composition with the framing layer (C05) and the codec (C01) -/
 
+/-- STACK ROUND TRIP (framing + chunking/security).  For every policy row, mode,
+    chunk size ≥ 8192 and receive buffer ≥ chunk size: the byte stream the sender
+    writes for a session of messages, cut into ANY TCP segmentation, is delivered
+    by `uacp.Conn.Receive` (model `Uacp.receiveAll`, C05) as exactly the chunks
+    followed by a clean EOF, and `SecureChannel.Receive` (model `receiveMany`)
+    turns these chunks back into exactly the session. -/
+theorem C07_stack_roundtrip (a : AlgoParams) (ha : a ∈ Gen.symmetricRows) (m : Mode) (pS pR : Bool)
+    (cS cR : Crypto) (hc : CryptoOK a cS cR) (cs : Int) (h : 8192 ≤ cs) (hcs : cs < 4294967296)
+    (rcvBuf : Nat) (hrb : cs ≤ rcvBuf) (hrb2 : rcvBuf < 4294967296)
+    (insts : Nat → List Side) (lim : Limits) (chan tok : Nat) (hchan : chan < 4294967296)
+    (hi : ∃ rest, (insts chan).reverse = ⟨m, pR, a, cR⟩ :: rest)
+    (msgs : List (Nat × Bytes)) (t : Table)
+    (hm : ∀ x ∈ msgs, x.1 < 4294967296 ∧ x.2.length < 4294967296 ∧ t x.1 = [] ∧
+      (lim.maxChunkCount = 0 ∨ x.2.length / maxBody a cs ≤ lim.maxChunkCount) ∧
+      (lim.maxMessageSize = 0 ∨ x.2.length ≤ lim.maxMessageSize))
+    (seq : Int) (hseq : SeqInv seq) :
+    ∃ wire seq', sendSession ⟨m, pS, a, cS⟩ (maxBody a cs) chan tok seq msgs = (seq', .ok wire) ∧ SeqInv seq' ∧
+      (∀ segs : Uacp.Stream, segs.flatten = wire.flatten → Uacp.receiveAll rcvBuf segs = (wire, .eof)) ∧
+      receiveMany insts lim wire.length t wire = msgs.map (fun x => .ok ⟨x.1, chan, x.2⟩) := by
+  refine Stack.stack_session (paired_of_row a ha m pS pR cS cR hc) insts lim (maxBody a cs)
+    (maxBody_pos a ha cs h hcs).1 chan tok hchan hi msgs t hm seq hseq rcvBuf (by omega) hrb2 ?_
+  intro n hn
+  have hfit : ((chunkLen ⟨m, pS, a, cS⟩ (8 + n) : Nat) : Int) ≤ cs := by
+    rw [chunkLen_eq_secureLen a ha m pS cS]
+    refine C38.C38_fits a (C38.C38_rows_ok a ha) m cs h hcs _ (by omega) ?_
+    rw [← (maxBody_pos a ha cs h hcs).2]
+    exact Int.ofNat_le.mpr hn
+  omega
+
+/-- the body of a service message as `EncodeChunks` computes it: type id ‖ encoded service -/
+def svcBody (fuel : Nat) (tid : Codec.ExpNodeId) (i : Nat) (v : Codec.Val) : Bytes :=
+  match Codec.encExpNodeId tid, Codec.encode C01.env fuel (.ptr (Gen.serviceTypes.getD i default).ty) v with
+  | .ok tb, .ok bs => tb ++ bs
+  | _, _ => []
+
+/-- STACK ROUND TRIP UP TO THE SERVICE VALUE (framing + chunking/security +
+    codec, composing C05, C07 and C01).  A session of registered service values
+    (each: type id `tid` registered at index `i`, well-typed value `v`): the
+    bodies are their encodings, the byte stream under any segmentation comes back
+    as the same bodies, and `ua.DecodeService` (model `decService`, C01) applied
+    to each received body returns the type id, the registered name and the
+    (normalised) value, consuming the whole body. -/
+theorem C07_stack_service_roundtrip (a : AlgoParams) (ha : a ∈ Gen.symmetricRows) (m : Mode) (pS pR : Bool)
+    (cS cR : Crypto) (hc : CryptoOK a cS cR) (cs : Int) (h : 8192 ≤ cs) (hcs : cs < 4294967296)
+    (rcvBuf : Nat) (hrb : cs ≤ rcvBuf) (hrb2 : rcvBuf < 4294967296)
+    (insts : Nat → List Side) (lim : Limits) (chan tok : Nat) (hchan : chan < 4294967296)
+    (hi : ∃ rest, (insts chan).reverse = ⟨m, pR, a, cR⟩ :: rest)
+    (fuel : Nat) (svcs : List (Nat × Codec.ExpNodeId × Nat × Codec.Val)) (t : Table)
+    (hsv : ∀ s ∈ svcs, Codec.wtExp s.2.1 = true ∧
+      (((Codec.normExp s.2.1).nodeId.bind Codec.regKey).bind fun k =>
+        Codec.findIdx (·.id == k) Gen.serviceTypes 0) = some s.2.2.1 ∧
+      Codec.wt C01.env fuel (.ptr (Gen.serviceTypes.getD s.2.2.1 default).ty) s.2.2.2 = true)
+    (hm : ∀ s ∈ svcs, s.1 < 4294967296 ∧ (svcBody fuel s.2.1 s.2.2.1 s.2.2.2).length < 4294967296 ∧ t s.1 = [] ∧
+      (lim.maxChunkCount = 0 ∨ (svcBody fuel s.2.1 s.2.2.1 s.2.2.2).length / maxBody a cs ≤ lim.maxChunkCount) ∧
+      (lim.maxMessageSize = 0 ∨ (svcBody fuel s.2.1 s.2.2.1 s.2.2.2).length ≤ lim.maxMessageSize))
+    (seq : Int) (hseq : SeqInv seq) :
+    ∃ wire seq',
+      sendSession ⟨m, pS, a, cS⟩ (maxBody a cs) chan tok seq
+        (svcs.map fun s => (s.1, svcBody fuel s.2.1 s.2.2.1 s.2.2.2)) = (seq', .ok wire) ∧
+      (∀ segs : Uacp.Stream, segs.flatten = wire.flatten → Uacp.receiveAll rcvBuf segs = (wire, .eof)) ∧
+      receiveMany insts lim wire.length t wire =
+        svcs.map (fun s => .ok ⟨s.1, chan, svcBody fuel s.2.1 s.2.2.1 s.2.2.2⟩) ∧
+      ∀ s ∈ svcs, ∀ al : Nat,
+        Codec.decService Gen.serviceTypes (Codec.decode C01.env fuel) ⟨svcBody fuel s.2.1 s.2.2.1 s.2.2.2, al⟩ =
+          .ok (Codec.normExp s.2.1, (Gen.serviceTypes.getD s.2.2.1 default).name,
+               Codec.norm C01.env fuel (.ptr (Gen.serviceTypes.getD s.2.2.1 default).ty) s.2.2.2) ⟨[], al⟩ := by
+  obtain ⟨wire, sq, h1, -, h3, h4⟩ := C07_stack_roundtrip a ha m pS pR cS cR hc cs h hcs rcvBuf hrb hrb2 insts lim chan tok
+    hchan hi (svcs.map fun s => (s.1, svcBody fuel s.2.1 s.2.2.1 s.2.2.2)) t
+    (by
+      intro x hx
+      obtain ⟨s, hs, rfl⟩ := List.mem_map.mp hx
+      exact hm s hs) seq hseq
+  refine ⟨wire, sq, h1, h3, ?_, ?_⟩
+  · rw [h4, List.map_map]; rfl
+  · intro s hs al
+    obtain ⟨w1, w2, w3⟩ := hsv s hs
+    obtain ⟨tb, bs, e1, e2, e3⟩ := C01.C01_service fuel s.2.1 s.2.2.1 s.2.2.2 [] al w1 w2 w3
+    simp only [svcBody, e1, e2]
+    simpa using e3
+end Opcua.Props.C07
